@@ -23,7 +23,7 @@ Verdict(ev, i) ==
   ELSE IF ev.obs.c = "abort" /\ ~OomText(ev.obs.why) THEN PrintT(<<"REJECT", i, "abort">>)
   ELSE \* stopped by the watchdog or by the memory limit: only expensive inputs may be
        IF ~Supported(ev.q) THEN PrintT(<<"UNSUPPORTED", i>>)
-       ELSE IF Expensive(ParseQueryText(ev.q)) THEN PrintT(<<"NOTE", i, "expensive input stopped">>)
+       ELSE IF ExpensiveText(ev.q) THEN PrintT(<<"NOTE", i, "expensive input stopped">>)
        ELSE PrintT(<<"REJECT", i, "a cheap input did not finish">>)
 
 \* the stage machine accepts the line: composite step (the stages are not observable one by one)
